@@ -65,7 +65,7 @@ def r_char(c):
     return "char:%d" % (o if o < 128 else o - 256)
 
 
-VEC_OPS = ["v_get", "v_set", "v_front", "v_back", "v_push", "v_pop", "v_insert", "v_erase", "v_resize", "v_resize2", "v_resize_huge", "v_reserve", "v_clear",
+VEC_OPS = ["v_get", "v_set", "v_front", "v_back", "v_push", "v_pop", "v_insert", "v_erase", "v_resize", "v_resize2", "v_resize_set", "v_resize_huge", "v_reserve", "v_clear",
            "v_size", "v_empty", "v_assign", "v_copy_mut", "v_cap"]
 MAP_OPS = ["m_get", "m_at", "m_set", "m_count", "m_erase", "m_size", "m_clear", "m_insert", "m_empty"]
 STR_OPS = ["s_get", "s_size", "s_clear", "s_append", "s_append_c", "s_push", "s_substr", "s_find", "s_insert", "s_erase", "s_empty", "s_assign", "s_set"]
@@ -181,6 +181,14 @@ def plan(st_, M):
         M.v = v[:newn] + [x if two else None] * max(0, newn - n)
         M.drop_views("v")
         return ("v.resize(%d, %s)" % (newn, lit_int(x)) if two else "v.resize(%d)" % newn), None
+    if op == "v_resize_set":
+        # grow by two or three slots without a fill value, give ONE of the new slots a value: the others stay without one (distinct objects)
+        grow = 2 + x % 2
+        which = n + (x // 2) % grow
+        M.v = v + [None] * grow
+        M.v[which] = x
+        M.drop_views("v")
+        return "v.resize(%d); v[%d] = %s" % (n + grow, which, lit_int(x)), "i32:%d" % x
     if op == "v_resize_huge":
         return "v.resize(%s)" % ("-1" if x % 2 else "18446744073709551615ul"), RAISE
     if op == "v_reserve":
